@@ -44,6 +44,12 @@ type LoopSpec struct {
 	Decreases *Clause
 }
 
+type CallArg struct {
+	H  string
+	K  int
+	Cl Clause
+}
+
 type LetDef struct {
 	Name string
 	S    Spec
@@ -76,6 +82,8 @@ type Contract struct {
 	Bytes      bool // model bulk copies (append/copy of slices) with quantified content axioms
 	After      []*AfterSpec
 	Calls      []string // function-typed parameters the callee may invoke (at most once)
+	Generics   [][2]string // type variable, parameter it is taken from
+	CallArgs   []CallArg
 	CallsNonNil []string // ... with non-nil arguments
 	Uses       []string // axioms assumed at entry
 	Splits     []Clause // case split: every obligation is discharged once per case; the cases must cover the precondition
@@ -141,7 +149,7 @@ var labelRe = regexp.MustCompile(`^\[([A-Za-z0-9_.:\-]+)\]\s*`)
 var clauseKW = map[string]bool{"props": true, "requires": true, "ensures": true, "assigns": true, "canary": true,
 	"loop": true, "decreases": true, "nooverflow": true, "assumed": true, "inline": true, "let": true, "panics_ok": true,
 	"params": true, "ghost": true, "terminates": true, "bytes": true, "split": true, "uses": true, "after": true, "calls": true,
-	"maxalloc": true, "allocates": true}
+	"maxalloc": true, "allocates": true, "generic": true, "callarg": true}
 
 func fullName(pkgPath, key string) string {
 	if strings.Contains(key, "/") || pkgPath == "" {
@@ -411,6 +419,29 @@ func (c *Contract) addClause(kw, text string, line int) error {
 		default:
 			return fmt.Errorf("after: want assigns or ensures")
 		}
+	case "callarg":
+		// callarg h k <spec over cbarg>
+		fs := strings.SplitN(strings.TrimSpace(text), " ", 3)
+		if len(fs) != 3 {
+			return fmt.Errorf("callarg: want `callarg <param> <index> <spec>`")
+		}
+		k, err := strconv.Atoi(fs[1])
+		if err != nil {
+			return fmt.Errorf("callarg: bad index %q", fs[1])
+		}
+		cl, err := c.mkClause(fs[2], line)
+		if err != nil {
+			return err
+		}
+		c.CallArgs = append(c.CallArgs, CallArg{H: fs[0], K: k, Cl: cl})
+	case "generic":
+		// generic T elem p: at each call site T is the element type of the pointer boxed in the interface
+		// argument p (its static type before the conversion to the interface)
+		fs := strings.Fields(text)
+		if len(fs) != 3 || fs[1] != "elem" {
+			return fmt.Errorf("generic: want `generic T elem <param>`")
+		}
+		c.Generics = append(c.Generics, [2]string{fs[0], fs[2]})
 	case "calls":
 		fs := strings.Fields(text)
 		if len(fs) == 0 {
